@@ -51,7 +51,7 @@ def run_pair(flt, stream_a, cut, stream_b):
             'b': sess[1][1]._reply.xml if sess[1][1]._reply is not None else None, 'error': err}
 
 
-def run(use_filter, requests, segments, as_element=False, timed_out=()):
+def run(use_filter, requests, segments, as_element=False, timed_out=(), issue_at=None):
     """requests: list of filter_xml strings or None (one async ExecuteRpc each, message-ids m1, m2, …);
     segments: list of bytes fed in order.  -> list of raw reply texts (or None) per request, + error"""
     dh = manager.make_device_handler({'name': 'junos', 'use_filter': use_filter})
@@ -59,7 +59,13 @@ def run(use_filter, requests, segments, as_element=False, timed_out=()):
     s._connected = True
     s.parser = dh.get_xml_parser(s)
     rpcs = []
+    issue_at = issue_at or {}
+    late = []
     for i, flt in enumerate(requests, 1):
+        if issue_at.get(i - 1):
+            late.append((i, flt))
+            rpcs.append(None)
+            continue
         r = ExecuteRpc(s, dh, async_mode=True, raise_mode=RaiseMode.NONE)
         # deterministic ids
         lst = r._listener
@@ -85,7 +91,24 @@ def run(use_filter, requests, segments, as_element=False, timed_out=()):
             except Exception:
                 pass
     err = None
-    for seg in segments:
+
+    def issue(i, flt):
+        # a request issued through the PUBLIC call while earlier replies are (partly) in: ExecuteRpc.request(rpc, filter_xml)
+        from ncclient.xml_ import new_ele
+        r = ExecuteRpc(s, dh, async_mode=True, raise_mode=RaiseMode.NONE)
+        lst = r._listener
+        with lst._lock:
+            del lst._id2rpc[r._id]
+            r._id = 'm%d' % i
+            lst._id2rpc[r._id] = r
+        if as_element and flt is not None:
+            from lxml import etree
+            flt = etree.fromstring(flt)
+        r.request(new_ele('get-something'), filter_xml=flt)
+        rpcs[i - 1] = r
+    for j, seg in enumerate(segments):
+        for (i, flt) in [x for x in late if issue_at.get(x[0] - 1) == j]:
+            issue(i, flt)
         try:
             worker_receive(s, bytes(seg))
         except Exception as e:
@@ -93,5 +116,5 @@ def run(use_filter, requests, segments, as_element=False, timed_out=()):
             break
     out = []
     for r in rpcs:
-        out.append(r._reply.xml if r._reply is not None else None)
+        out.append(r._reply.xml if (r is not None and r._reply is not None) else None)
     return {'replies': out, 'error': err, 'residual': s._buffer.getvalue().decode('utf-8', 'replace')}
